@@ -535,6 +535,11 @@ def run(w: World, rep: Report):
     # ---- R6 macro / symbol tables are expanded from copies ---------------------------------
     _macro_table(w, rep)
 
+    from .report import depend
+    depend(rep, w, 'rules_c19', ('C19.R3',), 'C11.TD19',
+           'what a source compiles to does not depend on earlier compilations: no parser function mutates a default '
+           'argument a caller can take (C19.R3 re-evaluated) - a macro or variable table shared between calls makes '
+           'undefined macros assemble and redefinitions leak', floor=20)
     rep.explanation = (
         'Decides the structural clauses of C11: the compiler dispatch covers every VM op exactly once '
         '(R1); the operand shape each encoder helper emits - derived by abstract interpretation of the '
